@@ -141,9 +141,10 @@ def prf_pattern(repo, res):
 
 def image_models(repo, res):
     f = repo.method('photutils.psf.image_models.ImagePSF', 'evaluate')
-    for w, meaning in (('xi = ' + nf_text('self.oversampling[1] * (np.asarray(x, dtype=float) - x_0)'), 'x index scaled by the x oversampling (oversampling is (y, x))'),
-                       ('yi = ' + nf_text('self.oversampling[0] * (np.asarray(y, dtype=float) - y_0)'), 'y index scaled by the y oversampling'),
-                       ('xi Add= ' + nf_text('self._origin[0]'), 'x origin (origin is (x, y))'), ('yi Add= ' + nf_text('self._origin[1]'), 'y origin'),
+    for w, meaning in (('xi = ' + nf_text('self.oversampling[1] * (np.asarray(x, dtype=float) - x_0) + self._origin[0]'),
+                        'x index = x oversampling * (x - x_0) + x origin (oversampling is (y, x), origin is (x, y))'),
+                       ('yi = ' + nf_text('self.oversampling[0] * (np.asarray(y, dtype=float) - y_0) + self._origin[1]'),
+                        'y index = y oversampling * (y - y_0) + y origin'),
                        ('evaluated_model = ' + nf_text('flux * self.interpolator(xi, yi, grid=False)'), 'spline evaluated at (xi, yi), times flux'),
                        (nf_text('(ny, nx)') + ' = self.data.shape', 'shape unpacked as (ny, nx)'),
                        ('invalid = ' + nf_text('(xi < 0) | (xi > nx - 1) | (yi < 0) | (yi > ny - 1)'), 'outside-the-grid test uses both axes with the matching size'),
@@ -152,10 +153,8 @@ def image_models(repo, res):
     # bounding box = footprint of the valid index range of evaluate(): 0 <= ov*(x - x_0) + origin <= n - 1  <=>
     # x in x_0 + ((n-1)/2 - origin)/ov -+ (n-1)/2/ov  (the box used is half a sample wider: n/2/ov)
     b = repo.method('photutils.psf.image_models.ImagePSF', '_calc_bounding_box')
-    for w, meaning in (('xshift = ' + nf_text('np.array(self.data.shape[1] - 1) / 2 - self.origin[0]'), 'x shift = array centre minus origin (origin is (x, y))'),
-                       ('yshift = ' + nf_text('np.array(self.data.shape[0] - 1) / 2 - self.origin[1]'), 'y shift = array centre minus origin'),
-                       ('xshift Div= ' + nf_text('self.oversampling[1]'), 'x shift in model pixels (oversampling is (y, x))'),
-                       ('yshift Div= ' + nf_text('self.oversampling[0]'), 'y shift in model pixels'),
+    for w, meaning in (('xshift = ' + nf_text('(np.array(self.data.shape[1] - 1) / 2 - self.origin[0]) / self.oversampling[1]'), 'x shift = (array centre minus origin) in model pixels (origin is (x, y), oversampling is (y, x))'),
+                       ('yshift = ' + nf_text('(np.array(self.data.shape[0] - 1) / 2 - self.origin[1]) / self.oversampling[0]'), 'y shift = (array centre minus origin) in model pixels'),
                        (nf_text('(dy, dx)') + ' = ' + nf_text('np.array(self.data.shape) / 2 / self.oversampling'), 'half sizes in (y, x) order')):
         expect_stmt(res, 'SPEC', b, w, meaning)
     SP.returns_match(repo, res, 'SPEC', 'photutils.psf.image_models.ImagePSF._calc_bounding_box',
